@@ -53,6 +53,8 @@ type GenesisConfig struct {
 	// Exported: the pos genesis is marked as exported from another chain and lists the previous-state powers
 	// (the validators Tendermint already has) instead of letting InitGenesis compute the first update batch
 	Exported bool
+	// Tombstoned: keys without a validator record whose signing info (tombstoned) is part of the genesis state
+	Tombstoned []*Actor
 }
 
 func coins(n int64) sdk.Coins { return sdk.NewCoins(sdk.NewCoin(Denom, sdk.NewInt(n))) }
@@ -106,6 +108,9 @@ func (g GenesisConfig) AppState() []byte {
 	pgs.Params = g.PosParams
 	pgs.Validators = vals
 	pgs.PrevStateTotalPower = sdk.ZeroInt()
+	for _, t := range g.Tombstoned {
+		sinfos[t.AddrHex()] = posTypes.ValidatorSigningInfo{Address: t.Addr, StartHeight: 0, JailedUntil: time.Unix(253402300799, 0).UTC(), Tombstoned: true}
+	}
 	if len(sinfos) > 0 {
 		pgs.SigningInfos = sinfos
 	}
